@@ -80,8 +80,22 @@ enum Op {
     Expire,
     Restart,
     Wait(u16),
+    /// (k = 255: the most recent one)
     UseOld { x: u8, k: u8 },
     ResumeOld { x: u8, k: u8 },
+    /// CASE handshake of x as a background task; its k-th unencrypted secure-channel message
+    /// (either direction, retransmissions not counted) is held back until the removal `rm` has
+    /// been executed and answered, then released
+    CaseHeld { x: u8, fresh: bool, k: u8, rm: Rm, early_ack: bool },
+}
+
+/// What removes the fabric while the handshake is in flight.
+#[derive(Debug, Clone, Copy, PartialEq, Eq, Serialize, Deserialize)]
+enum Rm {
+    Remove { by: u8 },
+    Arm0,
+    Revoke { by: u8 },
+    Expire,
 }
 
 #[derive(Debug, Clone, Serialize, Deserialize)]
@@ -115,6 +129,18 @@ fn any_op() -> impl Strategy<Value = Op> {
         3 => prop_oneof![0u16..400, 400u16..2500].prop_map(Op::Wait),
         5 => (comm(), 0u8..4).prop_map(|(x, k)| Op::UseOld { x, k }),
         5 => (comm(), 0u8..4).prop_map(|(x, k)| Op::ResumeOld { x, k }),
+        2 => (comm(), any::<bool>(), 1u8..7, comm(), 0u8..4, any::<bool>()).prop_map(|(x, fresh, k, by, r, early_ack)| Op::CaseHeld {
+            x,
+            fresh,
+            k,
+            early_ack,
+            rm: match r {
+                0 => Rm::Remove { by },
+                1 => Rm::Arm0,
+                2 => Rm::Revoke { by },
+                _ => Rm::Expire,
+            },
+        }),
     ]
 }
 
@@ -140,6 +166,8 @@ enum Phase {
     Race { y: u8, secs: u8, pre: u16, delta: u16 },
     /// administrator x removes the fabric y is still commissioning
     EvictPending { x: u8, y: u8, with_case: bool },
+    /// x's fabric (pending or committed) is removed while a CASE handshake of x is in flight
+    Inflight { x: u8, y: u8, z: u8, pending: bool, fresh: bool, k: u8, rm: u8, early_ack: bool },
 }
 
 fn phase() -> impl Strategy<Value = Phase> {
@@ -158,6 +186,8 @@ fn phase() -> impl Strategy<Value = Phase> {
         3 => (comm(), comm(), comm(), 0u8..4).prop_map(|(x, y, z, ender)| Phase::Linger { x, y, z, ender }),
         3 => (comm(), 20u8..40, 0u16..1000, 0u16..700).prop_map(|(y, secs, pre, delta)| Phase::Race { y, secs, pre, delta }),
         3 => (comm(), comm(), any::<bool>()).prop_map(|(x, y, with_case)| Phase::EvictPending { x, y, with_case }),
+        9 => (comm(), comm(), comm(), any::<bool>(), any::<bool>(), 1u8..7, 0u8..8, any::<bool>())
+            .prop_map(|(x, y, z, pending, fresh, k, rm, early_ack)| Phase::Inflight { x, y: if y == x { (x + 1) % N_COMM as u8 } else { y }, z, pending, fresh, k, rm, early_ack }),
     ]
 }
 
@@ -219,6 +249,38 @@ fn expand(p: &Phase) -> Vec<Op> {
                 v.extend([Op::Case { x: *y, fresh: true }, Op::Complete(*y)]);
             }
             v.extend([Op::UseOld { x: *x, k: 0 }, Op::ResumeOld { x: *x, k: 0 }, Op::UseOld { x: *x, k: 1 }]);
+            v
+        }
+        Phase::Inflight { x, y, z, pending, fresh, k, rm, early_ack } => {
+            let mut v = Vec::new();
+            let rm = if *pending {
+                match rm % 8 {
+                    0 | 1 => Rm::Arm0,
+                    2 | 3 => Rm::Revoke { by: *y },
+                    4 | 5 => Rm::Remove { by: *y },
+                    _ => Rm::Expire,
+                }
+            } else if rm % 2 == 0 {
+                Rm::Remove { by: *y }
+            } else {
+                Rm::Remove { by: *x }
+            };
+            v.extend(expand(&Phase::Full { x: *y, subscribe: false, secs: 60 }));
+            if *pending {
+                let secs = if rm == Rm::Expire { 3 } else { 60 };
+                v.extend([Op::Pase(*x), Op::Arm(*x, secs), Op::Csr(*x), Op::Root(*x), Op::AddNoc(*x)]);
+            } else {
+                v.extend(expand(&Phase::Full { x: *x, subscribe: rm == (Rm::Remove { by: *x }), secs: 60 }));
+            }
+            if !*fresh {
+                // a warm record to resume with
+                v.push(Op::Case { x: *x, fresh: true });
+            }
+            v.push(Op::CaseHeld { x: *x, fresh: *fresh, k: *k, rm, early_ack: *early_ack });
+            v.extend([Op::UseOld { x: *x, k: 255 }, Op::ResumeOld { x: *x, k: 255 }]);
+            // the next commissioner gets the index
+            v.extend([Op::Pase(*z), Op::Arm(*z, 60), Op::Csr(*z), Op::Root(*z), Op::AddNoc(*z)]);
+            v.extend([Op::UseOld { x: *x, k: 255 }, Op::ResumeOld { x: *x, k: 255 }, Op::UseOld { x: *x, k: 254 }]);
             v
         }
         Phase::Race { y, secs, pre, delta } => vec![
@@ -292,7 +354,7 @@ fn case_strategy() -> impl Strategy<Value = C07Case> {
                     ops.remove(vh::util::pick(p, ops.len()));
                 }
             }
-            ops.truncate(70);
+            ops.truncate(90);
             C07Case { seed, real_pase, sched, ops }
         })
 }
@@ -819,10 +881,129 @@ fn run_segment<CC: rs_matter::crypto::Crypto>(
                     }
                 }
             }
+            Op::CaseHeld { x, fresh, k, rm, early_ack } => {
+                let xi = *x as usize;
+                'held: {
+                    let Some(idx0) = comms[xi].fab else {
+                        p.labels.push("inflight:skipped-no-fabric".into());
+                        break 'held;
+                    };
+                    let gen0 = t.gen_of(idx0);
+                    let f = ctrl_fab[xi];
+                    // whatever the removal needs is set up before the handshake starts
+                    let rm_sess: Option<(usize, SessPair)> = match rm {
+                        Rm::Remove { by } | Rm::Revoke { by } => {
+                            let yi = *by as usize;
+                            if comms[yi].committed && comms[yi].fab.is_some() {
+                                ensure_case(b, comms, t, yi, ctrl_fab, p).map(|sp| (yi, sp))
+                            } else {
+                                None
+                            }
+                        }
+                        Rm::Arm0 => match comms[xi].pase {
+                            Some(sp) if b.device_has_session(&sp) => Some((xi, sp)),
+                            _ => ensure_case(b, comms, t, xi, ctrl_fab, p).map(|sp| (xi, sp)),
+                        },
+                        Rm::Expire => None,
+                    };
+                    if rm_sess.is_none() && !(*rm == Rm::Expire && b.failsafe_armed_for(idx0)) {
+                        p.labels.push("inflight:skipped-removal-not-possible".into());
+                        break 'held;
+                    }
+                    if *fresh {
+                        b.ctrls[xi].matter.with_state(|s| s.resumption.remove_by_peer(f, DEV_NODE));
+                    } else if b.ctrls[xi].matter.with_state(|s| s.resumption.find_by_peer(f, DEV_NODE).is_none()) {
+                        let _ = do_case(b, comms, t, xi, ctrl_fab, p);
+                    }
+                    let from = b.tap_pos();
+                    let hold = b.hold_install(xi, *k as usize);
+                    let task = b.case_spawn(xi, f, DEV_NODE);
+                    let reached = {
+                        let h = &hold;
+                        b.run_until_or_case_end(&task, 3 * SEC, || h.held().is_some())
+                    };
+                    let mut removal = String::from("-");
+                    if reached {
+                        let m = hold.held().unwrap();
+                        let name = match m.opcode {
+                            0x10 => "ack",
+                            0x30 => "sigma1",
+                            0x31 => "sigma2",
+                            0x32 => "sigma3",
+                            0x33 => "sigma2resume",
+                            0x40 => "status",
+                            _ => "other",
+                        };
+                        // the initiator acknowledges first and sends the held message late
+                        let acked = *early_ack && b.hold_early_ack(&hold);
+                        let o = match (rm, rm_sess) {
+                            (Rm::Remove { .. }, Some((yi, sp))) => Some(b.invoke(yi, sp.ctrl_sid, &Cmd::RemoveFabric { idx: idx0 })),
+                            (Rm::Arm0, Some((yi, sp))) => Some(b.invoke(yi, sp.ctrl_sid, &Cmd::ArmFailSafe { secs: 0, breadcrumb: 0 })),
+                            (Rm::Revoke { .. }, Some((yi, sp))) => Some(b.invoke(yi, sp.ctrl_sid, &Cmd::RevokeCommissioning)),
+                            _ => {
+                                let mut n = 0;
+                                while b.failsafe_armed() && n < 24 {
+                                    b.run_for(500 * MS);
+                                    n += 1;
+                                }
+                                None
+                            }
+                        };
+                        let gone = !b.fabric_identities().iter().any(|fi| fi.0 == idx0);
+                        removal = format!("{} gone={gone}", o.map(|o| o.brief()).unwrap_or_else(|| "timer".into()));
+                        if gone {
+                            p.labels.push(format!(
+                                "inflight:removal-at-msg{}:{}{}:{}:{}:{}",
+                                k,
+                                name,
+                                if acked { "+early-ack" } else { "" },
+                                if m.src == 0 { "from-device" } else { "to-device" },
+                                if *fresh { "full" } else { "resume" },
+                                match rm {
+                                    Rm::Remove { by } if *by as usize == xi => "remove-own",
+                                    Rm::Remove { .. } => "remove-by-other",
+                                    Rm::Arm0 => "arm0",
+                                    Rm::Revoke { .. } => "revoke",
+                                    Rm::Expire => "timer",
+                                }
+                            ));
+                            p.labels.push(format!("inflight:removal-at-msg{k}"));
+                            p.nontrivial = true;
+                        } else {
+                            p.labels.push("inflight:removal-refused".into());
+                        }
+                    } else {
+                        p.labels.push("inflight:handshake-over-before-msg-k".into());
+                    }
+                    b.hold_release(&hold);
+                    let end = b.case_finish(task, 30 * SEC);
+                    b.hold_clear();
+                    let resumed = b.device_sc_opcodes_since(from).contains(&OP_SIGMA2_RESUME);
+                    note = format!("held={:?} removal: {removal}; handshake {:?} resumed={resumed} ctrl_sid={:?} dev_sid={:?}", hold.held().map(|m| (m.opcode, m.src)), end.result, end.ctrl_sid, end.dev_sid);
+                    if let Some(ctrl_sid) = end.ctrl_sid {
+                        // whatever came out of it was begun in generation gen0 of the index
+                        let pair = SessPair { ctrl_sid, dev_sid: end.dev_sid.unwrap_or(u32::MAX), dev_local_sess: end.dev_local_sess.unwrap_or(0), ctrl: xi };
+                        comms[xi].kept.push(Kept { pair, idx: idx0, gen: gen0, boot: p.boot_no });
+                        if end.dev_sid.is_some() {
+                            comms[xi].cur = Some(pair);
+                            p.labels.push("inflight:session-established".into());
+                        }
+                    }
+                    // the record the commissioner holds now (new or rotated) dates from generation gen0 too
+                    let rec: Option<ResumableSession> = b.ctrls[xi].matter.with_state(|s| s.resumption.find_by_peer(f, DEV_NODE).cloned());
+                    if let Some(rec) = rec {
+                        let rid = rec.resumption_id.reference().access().to_vec();
+                        if !comms[xi].recs.iter().any(|kr| kr.rec.resumption_id.reference().access().as_slice() == rid.as_slice()) {
+                            comms[xi].recs.push(KeptRec { rec, idx: idx0, gen: gen0 });
+                        }
+                    }
+                }
+            }
             Op::UseOld { x, k } => {
                 let xi = *x as usize;
                 if !comms[xi].kept.is_empty() {
-                    let kept = comms[xi].kept[*k as usize % comms[xi].kept.len()].clone();
+                    let n = comms[xi].kept.len();
+                    let kept = comms[xi].kept[if *k >= 254 { n.saturating_sub(256 - *k as usize) } else { *k as usize % n }].clone();
                     let live = t.live(kept.idx, kept.gen);
                     let held = kept.boot == p.boot_no && b.device_has_session(&kept.pair);
                     let bc_before = b.breadcrumb();
@@ -867,7 +1048,21 @@ fn run_segment<CC: rs_matter::crypto::Crypto>(
                         let still = b.fabric_identities().iter().any(|f| f.0 == kept.idx && t.present.get(&kept.idx) == Some(&(f.1, f.3))) && b.device_has_session(&kept.pair);
                         // (the commissioner's own session table is finite too: it may have evicted its half)
                         let ctrl_lost = r.error.as_deref().map(|e| e.starts_with("initiate:")).unwrap_or(false);
-                        if data.is_empty() && still && !ctrl_lost {
+                        // (no answer at all: the device's handlers may all be sitting on half-open
+                        // handshakes left behind by the in-flight steps; try again when they have timed out)
+                        let mut served = !data.is_empty();
+                        if !served && still && !ctrl_lost && r.error.is_some() {
+                            b.run_for(70 * SEC);
+                            let still2 = b.fabric_identities().iter().any(|f| f.0 == kept.idx && t.present.get(&kept.idx) == Some(&(f.1, f.3))) && b.device_has_session(&kept.pair);
+                            if still2 {
+                                let r2 = b.read(xi, kept.pair.ctrl_sid, &[(0, CL_OP_CREDS, 5)], true);
+                                served = r2.attrs.iter().any(|a| matches!(a.body, ReportBody::Data { .. })) || r2.error.as_deref().map(|e| e.starts_with("initiate:")).unwrap_or(false);
+                                p.labels.push("probe-live-session-retried".into());
+                            } else {
+                                served = true;
+                            }
+                        }
+                        if !served && still && !ctrl_lost {
                             fail(
                                 p,
                                 "probe:live-session-not-served",
@@ -881,7 +1076,8 @@ fn run_segment<CC: rs_matter::crypto::Crypto>(
             Op::ResumeOld { x, k } => {
                 let xi = *x as usize;
                 if !comms[xi].recs.is_empty() {
-                    let kr = comms[xi].recs[*k as usize % comms[xi].recs.len()].clone();
+                    let n = comms[xi].recs.len();
+                    let kr = comms[xi].recs[if *k >= 254 { n.saturating_sub(256 - *k as usize) } else { *k as usize % n }].clone();
                     let live = t.live(kr.idx, kr.gen);
                     let f = ctrl_fab[xi];
                     // what the controller holds now, to be put back afterwards
@@ -1196,7 +1392,7 @@ fn main() {
     let mut run = Run::new(
         "C07",
         "exploration",
-        "histories of up to 70 steps over one device and three commissioners (own root each, same administrator node id and same device node id in every fabric), built from 2-6 phases (complete commissioning; commissioning cut after step 3..8 and ended by timer expiry / ArmFailSafe(0) / RevokeCommissioning / restart; RemoveFabric(x by y); probe bursts; extra CASE sessions full or resumed, subscriptions; restart after a short or long wait; 'takeover', 'evict' and 'linger' scenarios that end with the next commissioner getting the index and the old one probing) plus inserted random steps and deletions; CASE sessions always by real handshakes (resumption included), PASE real in 30% of the cases, resumption-cache writer at 500 ms. Non-trivial: a fabric index disappeared while the device held a session, resumption record or subscription bound to it, and a later step got that index handed out again (AddNOC) or probed a session / record of the dead generation; distinct = distinct serialized history",
+        "histories of up to 90 steps over one device and three commissioners (own root each, same administrator node id and same device node id in every fabric), built from 2-6 phases (complete commissioning; commissioning cut after step 3..8 and ended by timer expiry / ArmFailSafe(0) / RevokeCommissioning / restart; RemoveFabric(x by y); probe bursts; extra CASE sessions full or resumed, subscriptions; restart after a short or long wait; 'takeover', 'evict', 'linger', 'race', 'evict-pending' and 'inflight' (a CASE handshake of the affected fabric, full or resumed, is in flight with its k-th secure-channel message held back while RemoveFabric / ArmFailSafe(0) / RevokeCommissioning / the timer removes the fabric) scenarios that end with the next commissioner getting the index and the old one probing) plus inserted random steps and deletions; CASE sessions always by real handshakes (resumption included), PASE real in 30% of the cases, resumption-cache writer at 500 ms. Non-trivial: a fabric index disappeared while the device held a session, resumption record or subscription bound to it, and a later step got that index handed out again (AddNOC) or probed a session / record of the dead generation; distinct = distinct serialized history",
     );
     run.assume("generation of a fabric index = number of times the device's public fabric table showed the index disappearing or changing its (fabric id, root certificate); an object first seen after a step was created in the generation current at that moment");
     run.assume("expired sessions (kept only to let the last answer out) and reserved sessions are not counted by the table check; the probes verify that they are not served");
